@@ -132,8 +132,10 @@ void Log::debugLog(std::string&& buf) {
   }
 
   auto* q = state_.getCurrentQueue();
-  q->emplace_back(std::move(buf));
+  // account for the message before it is moved into the queue (a moved-from
+  // string reports size 0 and the backlog cap would never be reached)
   state_.curSize += buf.size();
+  q->emplace_back(std::move(buf));
   state_.cv.notify_one();
 }
 
